@@ -164,7 +164,8 @@ pub fn run_app(
         config.paging_mode
     };
     let mut output_type =
-        OutputType::from_mode(&env, paging_mode, config.pager.clone(), &pager_cfg).unwrap();
+        OutputType::from_mode(&env, paging_mode, config.pager.clone(), &pager_cfg)
+            .unwrap_or_else(|err| fatal(format!("{err}")));
     let mut writer: &mut dyn Write = if paging_mode == PagingMode::Capture {
         &mut capture_output.unwrap()
     } else {
